@@ -47,6 +47,10 @@ pub struct TS {
     pub waits: u64,
     pub empty_polls: u32,
     pub batch_events: usize,
+    /// fault: a stalled thread - the first thread other than the loop that reaches this site
+    /// stops there until the loop has gone through this many more waits (or patience runs out)
+    pub stall: Option<(Site, u64)>,
+    pub stalls_fired: u32,
 }
 
 thread_local! {
@@ -149,6 +153,30 @@ impl calloop::verif::Sim for Hooks {
         log(Ev::Point { th, site });
         // a scheduling point that does not deprioritise the thread under PCT
         shuttle::thread::sleep(Duration::ZERO);
+        // fault injection: this thread is slow exactly here (descheduled, page fault, ...)
+        if th != 0 {
+            let stall = T.with(|t| {
+                let mut t = t.borrow_mut();
+                match t.stall {
+                    Some((s, n)) if s == site => {
+                        t.stall = None;
+                        t.stalls_fired += 1;
+                        Some(t.waits + n)
+                    }
+                    _ => None,
+                }
+            });
+            if let Some(until) = stall {
+                // (much less patient than the loop's own wait, which would otherwise give up and
+                // call the execution stuck while this thread is merely slow)
+                for _ in 0..PATIENCE / 6 {
+                    if T.with(|t| t.borrow().waits >= until) || is_stuck() {
+                        break;
+                    }
+                    shuttle::thread::yield_now();
+                }
+            }
+        }
         if site == Site::PingWriteAfter {
             T.with(|t| t.borrow_mut().in_flag_drop.remove(&th));
         }
@@ -347,6 +375,30 @@ pub fn begin_execution() {
     T.with(|t| t.borrow_mut().notifier_fd = -1);
     calloop::verif::install(Some(Rc::new(Hooks)));
     register_thread(0);
+}
+
+/// Arm the stalled-thread fault for this execution (one scenario instance in three).
+pub fn set_stall(extra: u32) {
+    let mut r = crate::rng::Rng::new(extra as u64 ^ 0x57A11);
+    if r.below(3) != 0 {
+        return;
+    }
+    let site = *r.pick(&[
+        Site::ChanSyncBlocking,
+        Site::ChanEnqueued,
+        Site::PingWriteBefore,
+        Site::PingWriteAfter,
+        Site::PingFlagDrop,
+        Site::ExecEnqueue,
+        Site::ExecEnqueued,
+        Site::NotifyBefore,
+        Site::NotifyAfter,
+        Site::BlockOnWake,
+        Site::BlockOnWakeStored,
+        Site::ArcDrop,
+    ]);
+    let waits = *r.pick(&[2u64, 5, 20, 40]);
+    T.with(|t| t.borrow_mut().stall = Some((site, waits)));
 }
 
 pub fn set_notifier(epfd: i32) {
